@@ -76,7 +76,7 @@ LeaveJoint(t) ==
 (* the decoded ConfChangeV2: transition tr \in {"A","I","E"} and the change list *)
 CCLeaveJoint(tr, ch) == tr = "A" /\ ch = <<>>
 CCEnterJoint(tr, ch) == tr # "A" \/ Len(ch) > 1          \* then auto_leave = (tr # "E")
-ApplyConfChange(t, tr, ch) ==
+CCApply(t, tr, ch) ==
     IF CCLeaveJoint(tr, ch) THEN LeaveJoint(t)
     ELSE IF CCEnterJoint(tr, ch) THEN EnterJoint(t, tr # "E", ch)
     ELSE Simple(t, ch)
